@@ -171,6 +171,8 @@ const prelude = `(set-option :produce-models true)
 (declare-datatypes ((Iface 0)) (((nilI) (mkI (itag Int) (ipay Pay)))))
 (declare-fun cat (Str Str) Str)
 (declare-const emp Str)
+(assert (forall ((x Str)) (! (= (cat emp x) x) :pattern ((cat emp x)))))
+(assert (forall ((x Str)) (! (= (cat x emp) x) :pattern ((cat x emp)))))
 (declare-fun blen (Str) Int)
 (declare-fun nl (Str) Int)
 (declare-fun vlen (Str) Int)
